@@ -612,3 +612,76 @@ func runParamsWriterCheck(p *Program) *FuncReport {
 	}
 	return rep
 }
+
+// cmdEntryPoints prints contract stubs (no-panic sweep, C20) for every message handler, gRPC query and
+// ValidateBasic of the custom modules that has no contract yet; functions that already have one are
+// listed so that `prop C20` can be added to them.
+func cmdEntryPoints(p *Program) {
+	var keys []string
+	for k := range p.Funcs {
+		keys = append(keys, k)
+	}
+	sort.Strings(keys)
+	seen := map[*ssa.Function]bool{}
+	byPkg := map[string][]string{}
+	for _, k := range keys {
+		fn := p.Funcs[k]
+		if seen[fn] || fn.Pkg == nil || !inEffectScope(fn.Pkg.Pkg.Path()) || fn.Synthetic != "" || len(fn.Blocks) == 0 {
+			continue
+		}
+		seen[fn] = true
+		file := fn.Prog.Fset.Position(fn.Pos()).Filename
+		if strings.HasSuffix(file, ".pb.go") || strings.HasSuffix(file, ".pb.gw.go") {
+			continue
+		}
+		isVB := fn.Name() == "ValidateBasic" && fn.Signature.Recv() != nil
+		isHandler := false
+		if fn.Signature.Recv() != nil {
+			rt := fn.Signature.Recv().Type()
+			if pt, ok := rt.(*types.Pointer); ok {
+				rt = pt.Elem()
+			}
+			if n, ok := types.Unalias(rt).(*types.Named); ok && n.Obj().Name() == "msgServer" {
+				sig := fn.Signature
+				isHandler = sig.Params().Len() == 2 && strings.HasSuffix(typeString(sig.Params().At(0).Type()), "context.Context")
+			}
+		}
+		if !(isVB || isHandler || isQuery(fn)) {
+			continue
+		}
+		key := contractKeyOf(fn)
+		pkg := fn.Pkg.Pkg.Path()
+		if fc := p.Specs.Contracts[key]; fc != nil {
+			byPkg[pkg] = append(byPkg[pkg], "// HAS CONTRACT: "+strings.TrimPrefix(key, pkg+".")+" props="+strings.Join(fc.Props, ","))
+			continue
+		}
+		recvName := fn.Params[0].Name()
+		recvT := strings.TrimPrefix(key, pkg+".")
+		recvT = recvT[:strings.LastIndex(recvT, ".")]
+		var ps []string
+		for _, prm := range fn.Params[1:] {
+			ps = append(ps, prm.Name())
+		}
+		var rs []string
+		for i := 0; i < fn.Signature.Results().Len(); i++ {
+			rs = append(rs, fmt.Sprintf("r%d", i))
+		}
+		stub := fmt.Sprintf("//@ func (%s %s) %s(%s) (%s)\n", recvName, recvT, fn.Name(), strings.Join(ps, ", "), strings.Join(rs, ", "))
+		if isHandler {
+			stub += fmt.Sprintf("//@   requires %s != nil\n", ps[1])
+		}
+		stub += "//@   prop C20"
+		byPkg[pkg] = append(byPkg[pkg], stub)
+	}
+	var pkgs []string
+	for k := range byPkg {
+		pkgs = append(pkgs, k)
+	}
+	sort.Strings(pkgs)
+	for _, k := range pkgs {
+		fmt.Println("## " + k)
+		for _, l := range byPkg[k] {
+			fmt.Println(l)
+		}
+	}
+}
